@@ -42,6 +42,13 @@ class BestSizes(Contract):
         for signed in (True, False):
             for case in ('like_int_frac', 'like_int_word', 'resize_int_frac', 'resize_int_word'):
                 yield dict(signed=signed, f=3, shape=[], case=case, bits=6)
+        # integer values in narrow / unsigned / low-precision carriers: sizing must not be done in the carrier's arithmetic
+        for car in ('arr:int8', 'np:int8', 'arr:uint8', 'np:uint8', 'arr:int16', 'np:uint16', 'arr:int32', 'arr:uint32', 'np:int64', 'arr:uint64', 'pyint'):
+            for gf in (None, 1, 4, 10, 28):
+                if tier == 'quick' and gf in (1, 10) and car not in ('arr:int8', 'np:uint8', 'arr:int16'):
+                    continue
+                yield dict(signed=None if 'uint' not in car else (None, False)[gf == 4], f=0, shape=[1] if car.startswith('arr:') else [], bits=8,
+                           case='carrier_free' if gf is None else 'carrier_frac_given', carrier=car, given_frac=gf)
         # raw integer codes with only n_frac given, by every container
         for signed in (None, True, False):
             for car in ('list', 'tuple', 'arr', 'pyint'):
@@ -54,6 +61,10 @@ class BestSizes(Contract):
         lo = -lim if cfg['signed'] is not False else 0
         if cfg['case'] == 'raw_frac_given':
             return {'k': [D.int('k%d' % i, lo, lim) for i in range(n)]}
+        if cfg['case'].startswith('carrier_'):
+            car = cfg['carrier']
+            clo, chi = (-128, 127) if 'int8' in car and 'uint8' not in car else (0, 255) if 'uint' in car else (-255, 255)
+            return {'k': [D.int('k%d' % i, clo, chi) for i in range(n)]}
         return {'k': [D.dyadic('k%d' % i, cfg['f'], lo, lim) for i in range(n)]}
 
     def given(self, cfg):
@@ -65,6 +76,8 @@ class BestSizes(Contract):
         if c in ('int_frac_given', 'like_int_frac', 'resize_int_frac'): return {'n_int': 4, 'n_frac': 2}
         if c in ('int_word_given', 'like_int_word', 'resize_int_word'): return {'n_int': 4, 'n_word': 9}
         if c == 'raw_frac_given': return {'n_frac': cfg['given_frac']}
+        if c == 'carrier_frac_given': return {'n_frac': cfg['given_frac']}
+        if c == 'carrier_free': return {}
 
     def run(self, cfg, P, inp):
         vals = inp['k']
@@ -77,6 +90,9 @@ class BestSizes(Contract):
         elif case.startswith('resize_'):
             x = P.Fxp(None, not cfg['signed'], 12, 3)
             x.resize(signed=cfg['signed'], **kw)
+        elif case.startswith('carrier_'):
+            from contracts.l3_fxp import build_carrier
+            x = P.Fxp(build_carrier(P, cfg['carrier'], list(vals), cfg['shape']), cfg['signed'], **kw)
         elif case == 'raw_frac_given':
             car = {'list': lambda: list(vals), 'tuple': lambda: tuple(vals), 'arr': lambda: P.arr(vals, dtype='int64', shape=(2,)), 'pyint': lambda: vals[0]}[cfg['carrier']]()
             x = P.Fxp(car, cfg['signed'], raw=True, **kw)
@@ -108,6 +124,9 @@ class BestSizes(Contract):
         n_int = W - F - s
         case = cfg['case']
         gv = self.given(cfg)
+        if case.startswith('carrier_'):
+            out['carrier_exact'] = And(exact, Not(B(st['inaccuracy'])))      # integers are exact at every n_frac >= 0
+            case = 'free' if case == 'carrier_free' else 'frac_given'
         if case == 'raw_frac_given':
             out['raw_codes_stored'] = And(*[eq(c, M(k)) for c, k in zip(codes, inp['k'])])
             case = 'frac_given'
